@@ -110,7 +110,8 @@ Definition compact_sep (ps : pst) (s : option node) (i : nat) : pst :=
 (* prettyPrintLongForm *)
 Definition long_sep (ps : pst) (s : option node) (i : nat) : pst :=
   if negb (Nat.eqb i 0) || (1 <? p_indent ps) then
-    if keepSameLineAsPrevious s || negb (needNewLineAfter (p_prev ps))
+    (* prev counts only when s is not the first statement of its block (fix 781f1b2) *)
+    if keepSameLineAsPrevious s || (negb (Nat.eqb i 0) && negb (needNewLineAfter (p_prev ps)))
     then with_idone (raw_write ps [32%N]) true
     else Println0 ps
   else ps.
@@ -136,6 +137,26 @@ Definition close_paren (b : bool) (ps : pst) : pst := if b then Print ps B")" el
 (* Precedences[token.COLON] (a missing map entry reads as the zero value) *)
 Definition colon_prec : Z := match table_get precedences token_COLON with Some p => p | None => 0 end.
 
+(* printElse: which form the alternative takes.  Compact mode decides on the statements that are printed,
+   i.e. without the comments (fix 4239cee) *)
+Inductive else_shape : Type := ESPanic | ESElseIf | ESPlain.
+Definition else_items (compact : bool) (l : list (option node)) : list (option node) :=
+  if compact then filter (fun x => negb (is_comment x)) l else l.
+Definition else_shape_of (compact : bool) (a : node) : else_shape :=
+  match a with
+  | NStmts l =>
+    match else_items compact l with
+    | None :: nil => ESPanic            (* Statements[0].Value() on a nil node *)
+    | Some e :: nil =>
+      match node_tok e with
+      | None => ESPanic                 (* Statements[0].Value() is a nil token: Type() dereferences it *)
+      | Some et => if tok_is et token_IF then ESElseIf else ESPlain
+      end
+    | _ => ESPlain
+    end
+  | _ => ESPlain
+  end.
+
 Section WithRec.
 Variable rec : node -> pst -> option pst.
 
@@ -152,6 +173,15 @@ Fixpoint pp_list_with (l : list (option node)) (first : bool) (ps : pst) {struct
     | None => None
     | Some m => match rec m ps1 with Some ps2 => pp_list_with r false ps2 | None => None end
     end
+  end.
+
+(* printElse, else-if form: print the first statement that is not a comment *)
+Fixpoint first_item_with (skipc : bool) (l : list (option node)) (ps : pst) {struct l} : option pst :=
+  match l with
+  | [] => None
+  | x :: r =>
+    if skipc && is_comment x then first_item_with skipc r ps
+    else match x with Some e => rec e ps | None => None end
   end.
 
 (* out.ComaList(list): a nil slice prints nothing *)
@@ -229,6 +259,7 @@ Fixpoint pp (n : node) (ps : pst) {struct n} : option pst :=
   let coma_list := coma_list_with pp in
   let pp_stmts := pp_stmts_with pp in
   let pp_block := pp_block_with pp in
+  let first_item := first_item_with pp in
   match n with
   | NIdent t | NInt t _ | NFloat t _ | NBool t _ | NControl t | NComment t _ _ => Some (Print ps (tlit t))
   | NString t => Some (Print ps (go_quote (tlit t)))
@@ -304,17 +335,14 @@ Fixpoint pp (n : node) (ps : pst) {struct n} : option pst :=
         | None => Some ps2
         | Some a =>
           let ps3 := if p_compact ps2 then Print ps2 B"else" else Print ps2 B" else " in
-          match a with
-          | NStmts (None :: nil) => None  (* Statements[0].Value() on a nil node *)
-          | NStmts (Some e :: nil) =>
-            match node_tok e with
-            | None => None (* Statements[0].Value() is a nil token: Type() dereferences it *)
-            | Some et =>
-              if tok_is et token_IF
-              then pp e (if p_compact ps3 then Print ps3 B" " else ps3)
-              else pp a ps3
+          match else_shape_of (p_compact ps3) a with
+          | ESPanic => None
+          | ESElseIf =>
+            match a with
+            | NStmts l => first_item (p_compact ps3) l (if p_compact ps3 then Print ps3 B" " else ps3)
+            | _ => None
             end
-          | _ => pp a ps3
+          | ESPlain => pp a ps3
           end
         end
       end
